@@ -585,8 +585,17 @@ class _PolicyRun:
         ctx.nontrivial = True
 
     # -- ops ------------------------------------------------------------------------------------------
+    def alt(self):
+        """every fourth operation goes through the context's other spelling of the same entry point (legacy alias, positional
+        instead of keyword arguments, resolve=True)"""
+        return self.ctx.n_ops % 4 == 3
+
     def op_register(self, op):
-        r = _call(self.cc.hash, op["pw"], category=op["cat"])
+        if self.alt():
+            self.ctx.probe("entry_point_alias")
+            r = _call(self.cc.encrypt, op["pw"], None, op["cat"])  # legacy alias of hash(); (secret, scheme, category) positionally
+        else:
+            r = _call(self.cc.hash, op["pw"], category=op["cat"])
         if r[0] == "exc":
             self.ctx.fail("C04", "hash-raises", f"hash({op['pw']!r}, category={op['cat']!r}) raised {r[1]}: {r[2]}", exc=r[1])
         self.ctx.log("register", op["user"], op["cat"], r[1])
@@ -629,7 +638,11 @@ class _PolicyRun:
         if op["user"] not in self.table:
             return
         h, pw = self.table[op["user"]]
-        r = _call(self.cc.identify, h)
+        if self.alt():
+            self.ctx.probe("entry_point_alias")
+            r = _call(lambda: getattr(self.cc.identify(h.encode("ascii"), resolve=True), "name", None))  # bytes in, handler object out
+        else:
+            r = _call(self.cc.identify, h)
         want = self.model.attribute(h)
         self.ctx.check(r == ("ok", want), "C04", "attribution-differs",
                        lambda: f"identify({h!r}) -> {r[:2]}, first configured scheme that claims it: {want} (order {self.model.schemes})")
@@ -644,7 +657,11 @@ class _PolicyRun:
         if s is None or self.model.window_empty(s, cat):
             return
         want, why = self.model.needs_update(h, cat)
-        r = _call(self.cc.needs_update, h, category=cat)
+        if self.alt():
+            self.ctx.probe("entry_point_alias")
+            r = _call(self.cc.hash_needs_update, h, None, cat)  # legacy alias, (hash, scheme, category) positionally
+        else:
+            r = _call(self.cc.needs_update, h, category=cat)
         self.ctx.log("needs_update", op["user"], cat, r[:2])
         c = cost_of(h, s)
         lo, hi = self.model.window(s, cat)
